@@ -261,8 +261,14 @@ def _worker(args):
             with quiet():
                 res = mod.execute(case)
         except RunTimeout:
-            res = {"failures": [fail(mod.PROP + ".hang.alarm", -1, "run exceeded %d s wall clock" % alarm_s)],
-                   "stats": {}, "log": ["ALARM"]}
+            if getattr(mod, "ALARM_IS_VERDICT", False):
+                # the property itself says that the call returns (C04)
+                res = {"failures": [fail(mod.PROP + ".hang.alarm", -1, "run exceeded %d s wall clock" % alarm_s)],
+                       "stats": {}, "log": ["ALARM"]}
+            else:
+                # slow (symbolic differentiation of a large rational system, a stiff integration ...): whether a call
+                # returns in time is not what this property states - inconclusive, counted
+                res = {"failures": [], "stats": {"alarm_inconclusive": 1}, "log": ["ALARM"]}
         except HarnessError as e:
             harness = str(e)
         except Exception as e:   # anything else escaping execute() is the harness's fault ...
@@ -399,8 +405,16 @@ def replay_file(mod, path):
             with quiet():
                 res = mod.execute(c)
     else:
-        with quiet():
-            res = mod.execute(case)
+        signal.signal(signal.SIGALRM, _alarm)
+        signal.alarm(int(getattr(mod, "ALARM_S", 600)))
+        try:
+            with quiet():
+                res = mod.execute(case)
+        except RunTimeout:
+            res = {"failures": [fail(mod.PROP + ".hang.alarm", -1, "run exceeded %d s wall clock" % getattr(mod, "ALARM_S", 600))]
+                   if getattr(mod, "ALARM_IS_VERDICT", False) else [], "log": ["ALARM"]}
+        finally:
+            signal.alarm(0)
     for f_ in res.get("failures", []):
         print("REPLAY-FAILURE oracle=%s step=%s %s" % (f_["oracle"], f_["step"], f_["detail"]))
     print("REPLAY-DIGEST %s" % digest(res.get("log", [])))
@@ -411,8 +425,11 @@ def confirm_fresh(prop, path, oracle):
     """Re-execute the minimised case in a fresh interpreter; True iff the same oracle fails there."""
     env = dict(os.environ)
     env["PYTHONHASHSEED"] = "0"
-    p = subprocess.run([sys.executable, "-m", "pgsim.cli", prop, "--replay", path], cwd=VERIF, env=env,
-                       stdout=subprocess.PIPE, stderr=subprocess.STDOUT, timeout=1800)
+    try:
+        p = subprocess.run([sys.executable, "-m", "pgsim.cli", prop, "--replay", path], cwd=VERIF, env=env,
+                           stdout=subprocess.PIPE, stderr=subprocess.STDOUT, timeout=3600)
+    except subprocess.TimeoutExpired:
+        return False, "replay did not finish within 3600 s"
     out = p.stdout.decode(errors="replace")
     return ("oracle=%s " % oracle) in out, out
 
